@@ -47,7 +47,7 @@ def problems(spec, path=''):
         v = spec['attrs'].get(member)
         if req and not v:
             out.append('%s: required attribute %s missing or empty' % (here, xn))
-        if v:
+        if v is not None:       # an attribute that is there with an empty value conforms to none of the checked types
             c = conforms(G.type_name(typ), v)
             if c is False:
                 out.append('%s: attribute %s=%r does not conform to %r' % (here, xn, v, G.type_name(typ)))
